@@ -110,14 +110,6 @@ pub assume_specification<P: core::str::pattern::Pattern>[ str::ends_with::<P> ](
 pub assume_specification[ str::repeat ](s: &str, n: usize) -> (r: String)
     ensures r@.len() == s@.len() * n, forall|i: int| 0 <= i < r@.len() ==> #[trigger] r@[i] == s@[i % (s@.len() as int)];
 
-/// rule R9: `s.lines()` handed to iterator adapters
-#[verifier::external_body]
-pub fn vp_lines<'a>(s: &'a str) -> (r: VpIter<&'a str>)
-    ensures
-        r.rest() == lines_spec(s),
-        s@.len() > 0 ==> lines_spec(s).len() > 0,
-        forall|i: int| 0 <= i < lines_spec(s).len() ==> no_lf(#[trigger] lines_spec(s)[i]@),
-{ unimplemented!() }
 /// rule R9: `s.chars().position(pred)`: index (in characters) of the first character for which `pred` returned true
 #[verifier::external_body]
 pub fn vp_chars_position<F: FnMut(char) -> bool>(s: &str, pred: F) -> (r: Option<usize>)
